@@ -375,6 +375,30 @@ PROPS.update({
     ),
 })
 
+PROPS.update({
+    'C13': dict(
+        level='proof',
+        level_text='Rocq theorems on a verified regex development (Brzozowski derivatives) and the tokenisation relation taken from the '
+                   'property text: the executable tokenize satisfies the relation and the relation is functional (C13_tokenize_spec, '
+                   'C13_tokens_spec_functional, C13_longest_prefix_match_spec, C13_best_match_spec), and on the faithful TokenStream model '
+                   'the delivered tokens do not depend on k or on the consumption schedule (C13_stream_k_independent). Tie to the code: for '
+                   'generated PAR grammars (overlapping keywords/identifiers, classes, look-ahead, comments, %allow_unmatched, scanner '
+                   'states with enter/push/pop) the scanner! text emitted by the REAL lexer generator is turned into scnr2 run-time tables '
+                   'by scnr2_generate and executed by the real scnr2::ScannerImpl + TokenIter + TokenStream (k in {1,2,5}, random peek '
+                   'schedules); the token sequence must equal tokenize on the regexes read with regex-syntax.',
+        level_note='Trusted: Coq kernel, extraction, OCaml driver, harness/dynscan.rs (conversion of scnr2_generate structures into scnr2 run-time '
+                   'structures, mirroring the quote! code of the macro), regex-syntax. scnr2 is external code: its conformance is tested, '
+                   'not proved.',
+        technique='Rocq proof (tokenisation relation, derivative-based matcher, k-independence of the stream model) + differential run of the real generated scanner',
+        streams=[dict(cmd='c13', quick=320, thorough=12000)],
+        rule='PAR grammars with 2-6 terminals from a pool of 22 overlapping patterns, optional comments / %auto_newline_off / %allow_unmatched, '
+             'half of them with a second scanner state entered/pushed/popped on quotes; 6 random texts each (atoms that tickle '
+             'longest-match vs priority ties, look-ahead at end of input, unmatched characters, non-ASCII); non-trivial = >= 2 tokens; '
+             'distinct = distinct case text',
+        explanation='tokenize_spec + the run against the real scanner.',
+    ),
+})
+
 import lschecks
 
 PROPS.update({
